@@ -423,13 +423,9 @@ impl BmpTcpInRunner {
                             .with_parent(unit_ingress_id)
                             .with_remote_addr(client_addr.ip())
                         ;
-                        let router_ingress_id;
-                        if let Some((ingress_id, _ingress_info)) = self.ingress_register.find_existing_bmp_router(&query_ingress) {
-                            router_ingress_id = ingress_id;
-                        } else {
-                            router_ingress_id = self.ingress_register.register();
-                            self.ingress_register.update_info(router_ingress_id, query_ingress);
-                        }
+                        let router_ingress_id = self
+                            .ingress_register
+                            .find_or_register_bmp_router(query_ingress);
 
                         let state_machine = Arc::new(Mutex::new(Some(
                             self.router_connected(router_ingress_id),
